@@ -10,6 +10,25 @@ TRUST = ("Trusted base: the Go type checker and go/ssa (x/tools v0.29.0) as a fa
 
 # id -> (technique, level text, level_note, design_ref)
 CLAIMED = {
+    "C09": (
+        "struct-tag agreement over the type graph + codec dispatch (decoded guards, expressions) + encoder/decoder language-compatibility table with abstract byte-interval evaluation of the repository's own JSON sanitiser",
+        "THIN claim: decides three necessary conditions only - json/yaml member names and omitempty agree on all 37 fields reachable from Spec with stable leaf kinds; write() picks yaml.v3 for .yaml and encoding/json otherwise for the same value while one decoder reads every file; "
+        "and for each extension the reader's decoder accepts the writer's output language (for .json this holds only because the output passes through escapeJSONForYAML, whose loop is evaluated over byte intervals to show that neither 0x7f nor 0xc2 0x80..0x9f is ever copied unescaped). "
+        "The core of the property (every string through two third-party YAML libraries) is not decidable statically.",
+        TRUST + "yaml.v3 -> go-yaml v2 compatibility for the leaf kinds is assumed, not checked. Does NOT decide the round trip over the string space.",
+        "DESIGN.md §4 C09"),
+    "C17": (
+        "structural lint of the shipped schema files as data ($ref resolution against the //go:embed pattern, draft-07 keyword typing) + reachability funnel + decoded success conditions + definite-assignment of the decoded document on go/ssa",
+        "Decides that the shipped schema compiles (no dangling $ref, well-typed keywords, builtin file embedded) - otherwise BuiltinSchema silently validates nothing -, that every entry point decides through one validate() which accepts exactly nil/none schemas and Valid() results, "
+        "that JSON and YAML input reach the same schema call and both are decoded for the annotation content check, and that files of every extension go through the same path.",
+        TRUST + "gojsonschema's draft-07 conformance is assumed; verdicts per document are not computed.",
+        "DESIGN.md §4 C17"),
+    "C18": (
+        "structural induction over the specs-go type graph: encoding/json image (tags, omitempty, nil/null, integer ranges) versus the resolved schema node, keyword by keyword; unknown constraining keywords fail closed",
+        "Decides for all 37 fields that whatever encoding/json can emit for a library-valid Spec is admitted by the schema node it is validated against: member present/absent vs required, null vs type, Go integer ranges vs minimum/maximum, "
+        "element and map-value types, closed objects. Obligations discharged by library validation are named (no null devices list, no null list entries); the Hook.timeout range is the property's own carve-out. Also that read and write consult one validator hook and the CLI installs the schema.",
+        TRUST + "String contents are unconstrained by the schema; the YAML file image is C09's (thin) concern.",
+        "DESIGN.md §4 C18"),
     "C19": (
         "value-origin analysis of the flag variable and of every *cdi.Cache source/sink in the command packages + control-dependence (decoded guards) of os.Exit and of the print statements; cmd/validate loaded as its own module",
         "Decides that the --spec-dirs variable reaches cdi.Configure of the default cache in the cobra.OnInitialize function, that every cache the subcommands query is that cache (any other queried source is reported), "
